@@ -462,7 +462,7 @@ def lmCore (c : LmCfg) (st : LmState c.n) (parents zParents : List (Vec c.n)) (s
 /-- `LMMAEvolutionStrategy.tell`; `zs` = the recorded `_solution_z` -/
 def lmTell (c : LmCfg) (st : LmState c.n) (sols zs : List (Vec c.n)) (perm : List Nat) (mu : Nat)
     (sup : LmSup) : Except Err (LmState c.n × Diag) :=
-  if mu = 0 then .ok ({ st with gens := st.gens + 1 }, {})
+  if mu = 0 then .ok (st, {})   -- zero parents change nothing: the generation counter too (it selects the direction vectors `ask` applies)
   else
     match ranked sols perm, ranked zs perm with
     | .error e, _ => .error e
